@@ -367,7 +367,7 @@ def _work(case):
 class C11(Prop):
     ID = "C11"
     SOURCES = SOURCES
-    LEAN_MODULES = ["Proofs.C11"]
+    LEAN_MODULES = ["Proofs.C11", "Proofs.BridgeC11"]
     THEOREMS = [
         "PylifeVerif.C11.damage_additive",
         "PylifeVerif.C11.damage_classwise_append",
@@ -386,7 +386,8 @@ class C11(Prop):
         "PylifeVerif.C11.effective_damage_sum_bounds",
         "PylifeVerif.C11.gassner_unrepaired_fails_empty_top_class",
         "PylifeVerif.C11.gassner_unrepaired_infinite_below_SD",
-    ]
+    ] + ["PylifeVerif.Bridge." + t for t in [      # generated (translated) definitions = hand model
+        "effective_damage_sum_eq", "finite_life_factor_eq"]]
     PARTIAL = {}
     RULE = ("case = (Woehler curve k_1/k_2/SD/ND with optional TN/TS/failure_probability, collective given as range / range-mean / from-to histogram with "
             "IntervalIndex class limits or as LoadCollective data frame, cycle counts with empty classes, load scale, "
@@ -402,6 +403,28 @@ class C11(Prop):
         "C11: theorems over the reals with x/0 = 0 and 0^(-k) = 0; the guards ValidCurve (SD, ND > 0), ValidColl (amplitudes, counts >= 0) and Loaded (some occupied class with positive amplitude) are exactly the inputs on which the real code does not return NaN/inf; pandas/numpy summation order and np.power rounding are not modelled (tolerance)",
         "C11: the model is the REPAIRED Miner code (tools/fixes/C11-gassner-max-occupied.diff, tools/fixes/C11-haibach-knee-at-50pct.diff); on a tree without the repair the oracle reports the finding classes gassner-*-empty-top-class / gassner-*-below-SD / gassner-haibach-native-knee",
     ]
+
+    # tie T (DESIGN 1.1): lean/Generated/<name>.lean are regenerated from the current python source before the build;
+    # Proofs.BridgeC11 proves them equal to the hand model the property theorems are about
+    TRANSLATED = ["Miner"]
+
+    def setup(self, log):
+        import os
+        import sys
+        tdir = os.path.join(core.VERIF, "translate")
+        sys.path.insert(0, tdir)
+        try:
+            import translate as T
+            ok, msg = T.run_modules(self.TRANSLATED, core.REPO, core.LEAN)
+        except Exception as e:      # the translator itself is broken: every bridge obligation counts as broken
+            ok, msg = False, f"translator crashed: {type(e).__name__}: {e}"
+            for n in self.TRANSLATED:
+                with open(os.path.join(core.LEAN, "Generated", n + "Status.lean"), "w") as f:
+                    f.write('#eval (throw (IO.userError "translator crashed") : IO Unit)\n')
+        finally:
+            sys.path.remove(tdir)
+        self.stats["translator"] = msg
+        log(("translator: " + msg) if ok else ("TRANSLATOR FAILED (broken proof obligation): " + msg))
 
     def __init__(self):
         self.stats = {"by_kind": {}, "by_pattern": {}, "by_sd_position": {}, "by_k2": {}, "by_shape": {},
